@@ -466,3 +466,14 @@ def _register_shared_split():
 
 
 # _register_shared_split() is called by the driver after this module is fully imported (no import cycles)
+
+
+# "a catalog created from N given centres has ... the given ones in order": on every creation route the given centres reach the writer
+# and the loader, also when a patch number is passed in addition (C18 unit on the constructor arguments)
+def _register_shared_round10():
+    from . import C18 as _C18
+    unit(P, "Catalog.from_*.arguments", fuc=["yaw.catalog.catalog:Catalog.from_dataframe", "yaw.catalog.catalog:Catalog.from_file", "yaw.catalog.catalog:Catalog.from_random"],
+         cases=[dict(which=w, mode=m) for w in ("from_dataframe", "from_file", "from_random") for m in ("apply", "apply+num")])(_C18.u_from_args)
+
+
+# _register_shared_round10() is called by the driver after this module is fully imported (no import cycles)
